@@ -37,19 +37,19 @@ ASSUMPTIONS = ["scipy.linalg.expm / dense matrix-vector products on <= 4096-dime
                "the dense matrix of the MPO(s) returned by generate_mpo defines H (non-Hermitian or charge-changing images are "
                "skipped and counted)",
                "MpsMpoOBC.to_tensor + Tensor.to_numpy(legs=...) are observation functions (cross-validated by C01/C06)",
-               "expmv delivers its documented tolerance per call; the conservation bound is (#calls) * 20 * tol + 1e-12",
+               "expmv delivers its documented tolerance per call; the conservation bound is (#calls) * 2 * tol + 1e-12",
                "time-dependent reference: 4th-order Gauss-Legendre Magnus propagator with 400 steps per interval"]
 
-C_TOL = 20.0       # allowed error per expmv call, in units of its tol
+C_TOL = 2.0        # allowed error per expmv call, in units of its tol
 FLOOR = 1e-12
 NTOL = 1e-10       # canonical form
-FULL_FLOOR = 1e-10
+FULL_FLOOR = 1e-11
 ORDER_FLOOR = 1e-9
 
 
 def plan(tier):
     if tier == "thorough":
-        return {"cases": 4200, "shards": 16, "budget_s": 800}
+        return {"cases": 3500, "shards": 16, "budget_s": 780}
     return {"cases": 315, "shards": 8, "budget_s": 110}
 
 
